@@ -505,6 +505,68 @@ def run_admin_delivery(params, known):
     return dict(name=params['name'], evaluations=count, nontrivial_keys=sorted(keys), violations=violations, known=[], samples=[])
 
 
+def run_report_over_mtu(params, known):
+    """The status report about a received bundle is itself larger than the MTU of the route to the
+    report-to endpoint and leaves in fragments: the node comes to rest, and the fragments it hands to
+    the convergence layer cover the report exactly once (one report per received identity, also when
+    the bundle arrives again)."""
+    violations = []
+    kinds = set()
+    count = 0
+    keys = set()
+    T0 = 700000000000
+
+    def viol(kind, detail, case):
+        if kind in kinds:
+            return
+        kinds.add(kind)
+        v = Violation(PROP, 'router', kind, dict(), '%r: %s' % (case, detail)).as_dict()
+        v['case'] = case
+        violations.append(v)
+    rq = B.FLAG_REQ_RECEPTION | B.FLAG_REQ_DELIVERY | B.FLAG_STATUS_TIME
+    for mtu in list(range(96, 114)) + [None]:
+        for repeats in (1, 2):
+            count += 1
+            case = dict(report_route_mtu=mtu, arrivals=repeats)
+            world = BpWorld(dict(node_id=NODE, rx_routes=TABLES['deliver-first'], tx_routes=[('^dtn://rpt/.*', 'dtn://next/', mtu), ('.*', 'dtn://next/', None)],
+                                 max_quiesce=300))
+            bundle = dict(primary=dict(flags=rq, crc_type=1, dest='dtn://node/svc', src='dtn://src/', report_to='dtn://rpt/x', ts=(T0, 1), lifetime=3600000),
+                          blocks=[dict(type=1, num=1, flags=0, crc_type=1, data=b'hello')])
+            try:
+                for _ in range(repeats):
+                    world.receive(B.encode(bundle))
+                    world.quiesce()
+            except HarnessError as err:
+                viol('node-never-comes-to-rest', '%s; %d bundles handed to the convergence layer so far' % (err, len(world.sent())), case)
+                continue
+            keys.add('%s/%d' % (mtu, repeats))
+            if world.escaped and all('too large for route MTU' in e[2] for e in world.escaped) and not world.sent():
+                continue        # the report's own headers exceed this MTU: it cannot leave at all
+            if world.escaped or world.api_errors:
+                esc = (world.escaped or world.api_errors)[-1]
+                viol('exception-escaped', '%s: %s' % (esc[0], esc[2] if world.escaped else esc[1]), case)
+                continue
+            whole = []
+            cover = {}
+            for octets in world.sent():
+                if mtu is not None and len(octets) > mtu:
+                    viol('transmissions-differ-from-reference', '%d octets on an MTU-%s route' % (len(octets), mtu), case)
+                dec = B.decode(octets)
+                pri = dec['primary']
+                if pri['flags'] & B.FLAG_IS_FRAGMENT:
+                    ent = cover.setdefault((pri['src'], tuple(pri['ts']), pri['total_adu']), [0] * pri['total_adu'])
+                    for i in range(pri['frag_offset'], pri['frag_offset'] + len(B.payload(dec))):
+                        ent[i] += 1
+                else:
+                    whole.append(dec)
+            nreports = len(whole) + len(cover)
+            if len(world.probe.seen) != 1:
+                viol('deliveries-differ-from-reference', '%d deliveries' % len(world.probe.seen), case)
+            if nreports < 1 or nreports > 2 or any(c != 1 for ent in cover.values() for c in ent):
+                viol('report-without-first-time-processing', '%d whole reports, fragment coverage %r' % (len(whole), [sorted(set(ent)) for ent in cover.values()]), case)
+    return dict(name=params['name'], evaluations=count, nontrivial_keys=sorted(keys), violations=violations, known=[], samples=[])
+
+
 def run_ipn3(params, known):
     '''Three-number ipn endpoint IDs (allocator.node.service): sources that differ only in the
     third number are different identities, a destination that differs from a routed one only by
@@ -628,6 +690,7 @@ def scenarios(tier):
                             params=dict(table=table, max_depth=depth + 1, first=first, menu=TWINS), dev_bound=0, use_snapshot=False,
                             liveness=False, max_states=500000, weight=1))
     out.append(dict(name='admin-delivery', kind='enum', runner='run_admin_delivery', params=dict(name='admin-delivery'), weight=3))
+    out.append(dict(name='report-over-mtu', kind='enum', runner='run_report_over_mtu', params=dict(name='report-over-mtu'), weight=3))
     out.append(dict(name='ipn3', kind='enum', runner='run_ipn3', params=dict(name='ipn3'), weight=3))
     out.append(dict(name='own-source', kind='enum', runner='run_own_source', params=dict(name='own-source'), weight=3))
     out.append(dict(name='long-history', kind='enum', runner='run_long_history', params=dict(name='long-history'), weight=3))
@@ -664,6 +727,7 @@ ASSUMPTIONS = [
     'a delivered bundle carries its own application data (for a reassembled one: the octets of its own fragments)',
     'configuration file: every receive table of up to 3 entries over 4 usable + 4 unusable entries (670 documents with the transmit tables of up to 3 over 2 + 2), read by the JSON-subset stand-in for PyYAML; five destinations routed through each',
     'administrative delivery: a status report for the node ID under three tables x 8 flag subsets x with / without creation time, handed to the record handler of the administrative application (wrapped by the harness) once',
+    'a status report larger than the MTU of the route to the report-to endpoint (every MTU from 96 to 113, and none), the subject arriving once and twice',
     'three-number ipn endpoint IDs: look-alike sources, a destination one number longer than the routed one, a foreign node one number longer than this node',
     'own source: node IDs in mixed case, lower case, with dots and in the ipn scheme; the reports and the application bundle the node emitted are fed back to it',
     'long histories: 0, 1, 255, 256, 257, 300 and 1100 other bundles between the first copies of a delivered and a forwarded bundle and their repeats',
